@@ -42,6 +42,8 @@ pub const TOKENS: &[&[u8]] = &[
     b"diff --git a/f b/f\n",
     b"diff --git a/f\n",
     b"@@ -1 +1 @@\n",
+    // a blank behind the second "@@" and nothing else: an empty function name
+    b"@@ -1 +1 @@ \n",
     b"@@ -1,2 +1,2 @@\n",
     b"@@ -0,0 +1 @@\n",
     b"@@ -1 +0,0 @@\n",
